@@ -3,6 +3,8 @@
 From Coq Require Import List NArith Bool.
 From V.C04 Require Model.
 From V.C13 Require Import Model Proofs Flush Inbound Tables TwoNode TwoNodeProofs.
+From V.Ts Require Model Proofs Answers Extra.
+From V.Link Require Ts_C13.
 Import ListNotations.
 Open Scope N_scope.
 
@@ -517,3 +519,149 @@ Example demo_pinned :
                   EAdvance 3600000; EClosed 0; EInOpen 1 1 0; EInReq 2 3 7] in
   length (rdrs (fst (fst res))) = 2%nat /\ snd res = [].
 Proof. vm_compute. split; reflexivity. Qed.
+
+(* ---- request-response ON the TransportService model (coq/Link/Ts_C13.v) ----
+   The contract premise of C13_exactly_one_contract is a ledger of what the environment owes. Here the
+   environment is no longer abstract for its part (o) "every accepted open_substream is answered": the
+   protocol model (Model.step, unchanged) is composed with the TransportService model coq/Ts of C08 / C09
+   (V.Link.Ts_C13.jmove / jnext / jok): the service handles an environment input and the one
+   protocol-visible event it emits is handed to the protocol as the stimulus of the same kind (and the
+   protocol sees such stimuli ONLY that way); every open_substream call of a handler (OOpen sid p) is
+   executed on the service (EOpen p / EOpenFull p) and the accepted calls are exactly those, with the same
+   ids. `evs_of ms` are the protocol's stimuli, `tr_of ms` the service's history. *)
+
+(* The coupling, for every joint history: an entry of the protocol-side ledger g_opens is an open in
+   flight at the service or was lost (its connection closed with the open in flight while the protocol
+   was not told ConnectionClosed: the peer keeps another connection); the ledger's connected peers are
+   the peers with a connection context at the service. *)
+Theorem C13_ledger_is_service_ledger :
+  forall (cf : cfg) (ka : bool) (T0 n0 : N) (ms : list V.Link.Ts_C13.jmove),
+  V.Link.Ts_C13.jtrace cf (V.Link.Ts_C13.j0 ka T0 n0) ms ->
+  let g := grun cf g0 (run_steps cf (init_pst, init_env) (V.Link.Ts_C13.evs_of ms)) in
+  let s := V.Ts.Model.final (V.Ts.Model.init ka T0 n0) (V.Link.Ts_C13.tr_of ms) in
+  (forall sid p, In (sid, p) (g_opens g) ->
+     (exists c, In (sid, (p, c)) (V.Ts.Model.s_pend s)) \/
+     In (sid, p) (V.Link.Ts_C13.lost_run (V.Ts.Model.init ka T0 n0) (V.Link.Ts_C13.tr_of ms))) /\
+  (forall q, In q (g_conn g) <-> V.Ts.Extra.hc (V.Ts.Model.s_ctxs s) q = true).
+Proof. exact V.Link.Ts_C13.ledger_is_service_ledger. Qed.
+Print Assumptions C13_ledger_is_service_ledger.
+
+(* Part (o) of the contract premise from the service's own books: nothing in flight at the end (the
+   hypothesis of C08_open_answered: the connection task answered every OpenSubstream command, or the
+   connection was closed) and nothing lost. *)
+Theorem C13_opens_discharged_on_service :
+  forall (cf : cfg) (ka : bool) (T0 n0 : N) (ms : list V.Link.Ts_C13.jmove),
+  V.Link.Ts_C13.jtrace cf (V.Link.Ts_C13.j0 ka T0 n0) ms ->
+  V.Ts.Model.s_pend (V.Ts.Model.final (V.Ts.Model.init ka T0 n0) (V.Link.Ts_C13.tr_of ms)) = [] ->
+  V.Link.Ts_C13.lost_run (V.Ts.Model.init ka T0 n0) (V.Link.Ts_C13.tr_of ms) = [] ->
+  g_opens (grun cf g0 (run_steps cf (init_pst, init_env) (V.Link.Ts_C13.evs_of ms))) = [].
+Proof. exact V.Link.Ts_C13.opens_discharged_on_service. Qed.
+Print Assumptions C13_opens_discharged_on_service.
+
+(* EXACTLY ONE for request-response running on the service model. Left as assumptions: the connection
+   tasks answer or close (nothing in flight at the service), no open is lost by a close the protocol is
+   not told about, the manager answers every accepted dial (C05's side; the service only forwards
+   DialFailure), and the request timeout passes for carriers that stay silent. *)
+Theorem C13_exactly_one_on_service_model :
+  forall (cf : cfg) (ka : bool) (T0 n0 : N) (ms : list V.Link.Ts_C13.jmove) (r : N),
+  0 < tmo cf ->
+  V.Link.Ts_C13.jtrace cf (V.Link.Ts_C13.j0 ka T0 n0) ms ->
+  V.Ts.Model.s_pend (V.Ts.Model.final (V.Ts.Model.init ka T0 n0) (V.Link.Ts_C13.tr_of ms)) = [] ->
+  V.Link.Ts_C13.lost_run (V.Ts.Model.init ka T0 n0) (V.Link.Ts_C13.tr_of ms) = [] ->
+  let g := grun cf g0 (run_steps cf (init_pst, init_env) (V.Link.Ts_C13.evs_of ms)) in
+  g_dials g = [] ->
+  (forall x, In x (g_live g) -> snd x <= g_now g) ->
+  let res := run cf (init_pst, init_env) (V.Link.Ts_C13.evs_of ms) in
+  In (OSent r) (snd res) ->
+  terms r (snd res) = 1%nat \/ In r (cancel_reqs (V.Link.Ts_C13.evs_of ms)).
+Proof. exact V.Link.Ts_C13.exactly_one_on_service_model. Qed.
+Print Assumptions C13_exactly_one_on_service_model.
+
+(* With one connection per peer at a time (`feasible 1`: C08's environment assumption with the cap at
+   one) nothing is ever lost, and the no-loss hypothesis goes away. *)
+Theorem C13_exactly_one_on_service_model_single :
+  forall (cf : cfg) (ka : bool) (T0 n0 : N) (ms : list V.Link.Ts_C13.jmove) (r : N),
+  0 < tmo cf ->
+  V.Link.Ts_C13.jtrace cf (V.Link.Ts_C13.j0 ka T0 n0) ms ->
+  V.Ts.Model.feasible 1 V.Ts.Model.env0 (V.Ts.Model.init ka T0 n0) (V.Link.Ts_C13.tr_of ms) = true ->
+  V.Ts.Model.s_pend (V.Ts.Model.final (V.Ts.Model.init ka T0 n0) (V.Link.Ts_C13.tr_of ms)) = [] ->
+  let g := grun cf g0 (run_steps cf (init_pst, init_env) (V.Link.Ts_C13.evs_of ms)) in
+  g_dials g = [] ->
+  (forall x, In x (g_live g) -> snd x <= g_now g) ->
+  let res := run cf (init_pst, init_env) (V.Link.Ts_C13.evs_of ms) in
+  In (OSent r) (snd res) ->
+  terms r (snd res) = 1%nat \/ In r (cancel_reqs (V.Link.Ts_C13.evs_of ms)).
+Proof. exact V.Link.Ts_C13.exactly_one_on_service_model_single. Qed.
+Print Assumptions C13_exactly_one_on_service_model_single.
+
+(* WHAT THE LINK FOUND. C08_open_answered's alternative "or its connection was closed" is about the
+   CONNECTION; the protocol is told ConnectionClosed only for a peer's LAST connection. With two
+   connections per peer (inside C08's contract, `feasible 2`): the request's open is in flight on the
+   primary, the primary closes while the secondary lives. The service forgets the open, emits neither an
+   answer nor ConnectionClosed; nothing is in flight at the service, yet the protocol-side ledger keeps the
+   open owed and the request has no terminal event (until something else ends it). So C08's guarantee
+   does not imply C13's premise for such histories: `lost_run = []` is a real hypothesis. *)
+Theorem C13_service_silent_close_loses_open :
+  let ms := V.Link.Ts_C13.ms_lost in
+  let cf := V.Link.Ts_C13.cf_ex in
+  V.Link.Ts_C13.jtrace cf (V.Link.Ts_C13.j0 true 1000 0) ms /\
+  V.Ts.Model.feasible 2 V.Ts.Model.env0 (V.Ts.Model.init true 1000 0) (V.Link.Ts_C13.tr_of ms) = true /\
+  V.Ts.Model.s_pend (V.Ts.Model.final (V.Ts.Model.init true 1000 0) (V.Link.Ts_C13.tr_of ms)) = [] /\
+  V.Link.Ts_C13.lost_run (V.Ts.Model.init true 1000 0) (V.Link.Ts_C13.tr_of ms) = [(0, 7)] /\
+  g_opens (grun cf g0 (run_steps cf (init_pst, init_env) (V.Link.Ts_C13.evs_of ms))) = [(0, 7)] /\
+  terms 0 (snd (run cf (init_pst, init_env) (V.Link.Ts_C13.evs_of ms))) = 0%nat.
+Proof. exact V.Link.Ts_C13.joint_history_silent_loss. Qed.
+Print Assumptions C13_service_silent_close_loses_open.
+
+(* non-vacuity of the composition: a connection, a request answered over an opened substream, a second
+   request whose open fails, the connection closes — a joint history; both ledgers end empty and each
+   request has its one terminal event *)
+Theorem C13_service_joint_history_nonvacuous :
+  let ms := V.Link.Ts_C13.ms_ok in
+  let cf := V.Link.Ts_C13.cf_ex in
+  V.Link.Ts_C13.jtrace cf (V.Link.Ts_C13.j0 true 1000 0) ms /\
+  V.Ts.Model.s_pend (V.Ts.Model.final (V.Ts.Model.init true 1000 0) (V.Link.Ts_C13.tr_of ms)) = [] /\
+  V.Link.Ts_C13.lost_run (V.Ts.Model.init true 1000 0) (V.Link.Ts_C13.tr_of ms) = [] /\
+  grun cf g0 (run_steps cf (init_pst, init_env) (V.Link.Ts_C13.evs_of ms)) = mkG 0 [] [] [] [] /\
+  snd (run cf (init_pst, init_env) (V.Link.Ts_C13.evs_of ms)) =
+    [OSent 0; OOpen 0 5; OBind 0 0; OWire 0 3 9; OResp 0 4 8; OSent 1; OOpen 1 5; OFail 1 4].
+Proof. exact V.Link.Ts_C13.joint_history_nonvacuous. Qed.
+Print Assumptions C13_service_joint_history_nonvacuous.
+
+(* The connection-task contract as a statement about the tasks' behaviour (not about the service's final
+   state): every OpenSubstream command a connection task received (OCmd c id) is LATER answered — the
+   service is handed SubstreamOpened / SubstreamOpenFailure for that id — or the task's connection is
+   reported closed to the service (`task_contract`). Then nothing is in flight at the end, for every
+   history in which the usize id counter does not wrap. *)
+Theorem C13_task_contract_empties_service :
+  forall (s0 : V.Ts.Model.st) (tr : list (N * V.Ts.Model.ev)),
+  V.Ts.Answers.pend_inv s0 -> V.Ts.Model.s_pend s0 = [] -> V.Ts.Proofs.nowrap s0 tr ->
+  V.Link.Ts_C13.task_contract s0 tr ->
+  V.Ts.Model.s_pend (V.Ts.Model.final s0 tr) = [].
+Proof. exact V.Link.Ts_C13.contract_empties_pend. Qed.
+Print Assumptions C13_task_contract_empties_service.
+
+(* EXACTLY ONE on the service model with the contracts spelled out: connection tasks (task_contract),
+   no silent loss (lost_run; a theorem under one connection per peer), the manager (g_dials), the clock. *)
+Theorem C13_exactly_one_on_service_model_contract :
+  forall (cf : cfg) (ka : bool) (T0 n0 : N) (ms : list V.Link.Ts_C13.jmove) (r : N),
+  0 < tmo cf ->
+  V.Link.Ts_C13.jtrace cf (V.Link.Ts_C13.j0 ka T0 n0) ms ->
+  V.Ts.Proofs.nowrap (V.Ts.Model.init ka T0 n0) (V.Link.Ts_C13.tr_of ms) ->
+  V.Link.Ts_C13.task_contract (V.Ts.Model.init ka T0 n0) (V.Link.Ts_C13.tr_of ms) ->
+  V.Link.Ts_C13.lost_run (V.Ts.Model.init ka T0 n0) (V.Link.Ts_C13.tr_of ms) = [] ->
+  let g := grun cf g0 (run_steps cf (init_pst, init_env) (V.Link.Ts_C13.evs_of ms)) in
+  g_dials g = [] ->
+  (forall x, In x (g_live g) -> snd x <= g_now g) ->
+  let res := run cf (init_pst, init_env) (V.Link.Ts_C13.evs_of ms) in
+  In (OSent r) (snd res) ->
+  terms r (snd res) = 1%nat \/ In r (cancel_reqs (V.Link.Ts_C13.evs_of ms)).
+Proof. exact V.Link.Ts_C13.exactly_one_on_service_model_contract. Qed.
+Print Assumptions C13_exactly_one_on_service_model_contract.
+
+(* the contract hypotheses are satisfiable: they hold in the non-vacuity history *)
+Theorem C13_service_contract_nonvacuous :
+  V.Link.Ts_C13.task_contract (V.Ts.Model.init true 1000 0) (V.Link.Ts_C13.tr_of V.Link.Ts_C13.ms_ok) /\
+  V.Ts.Proofs.nowrap (V.Ts.Model.init true 1000 0) (V.Link.Ts_C13.tr_of V.Link.Ts_C13.ms_ok).
+Proof. exact V.Link.Ts_C13.ms_ok_contract. Qed.
+Print Assumptions C13_service_contract_nonvacuous.
